@@ -24,22 +24,23 @@ import (
 type goroutineKilled struct{}
 
 type goroutine struct {
-	id       int
-	m        *machine
-	resume   chan bool // true = killed
-	done     bool
-	started  bool
-	park     string // "", "yield", "send", "recv", "mutex", "runnable"
-	waitCh   *chanV
-	sendVal  value
-	recvVal  value
-	recvOK   bool
-	waitMu   *value
-	tag      int64 // harness tag given to vYield
-	yielded  bool
-	returnTo *goroutine
-	fn       value
-	args     []value
+	id         int
+	m          *machine
+	resume     chan bool // true = killed
+	done       bool
+	started    bool
+	park       string // "", "yield", "send", "recv", "mutex", "runnable"
+	waitCh     *chanV
+	sendVal    value
+	recvVal    value
+	recvOK     bool
+	waitMu     *value
+	tag        int64 // harness tag given to vYield
+	yielded    bool
+	returnTo   *goroutine
+	selectSeen int // activity counter when the goroutine parked in a blocking select
+	fn         value
+	args       []value
 }
 
 type scheduler struct {
@@ -158,6 +159,12 @@ func (m *machine) parkCur(why string) {
 
 // drain runs goroutines that became runnable (eagerly, in id order).
 func (m *machine) drain() {
+	// goroutines waiting in a blocking select look again after any channel event
+	for _, g := range m.sched.gs {
+		if !g.done && g.park == "select" && g.selectSeen != m.sched.activity {
+			m.makeRunnable(g)
+		}
+	}
 	for len(m.sched.runq) > 0 {
 		g := m.sched.runq[0]
 		m.sched.runq = m.sched.runq[1:]
@@ -332,6 +339,7 @@ func (m *machine) chanClose(c *chanV) {
 		panic(m.runtimeError("close of nil or closed channel"))
 	}
 	c.closed = true
+	m.sched.activity++
 	for _, r := range c.recvq {
 		r.recvVal, r.recvOK = nil, false
 		m.makeRunnable(r)
@@ -430,7 +438,10 @@ func (m *machine) doSelect(fr *frame, instr *ssa.Select) value {
 			if !instr.Blocking {
 				return result(-1, nil, false)
 			}
-			panic(cut{"blocking select outside the scheduling goroutine"})
+			// blocking select in a worker: wait until some channel event happened, then look again
+			m.cur.selectSeen = m.sched.activity
+			m.parkCur("select")
+			continue
 		}
 		// nothing ready: take default, or deliver one running task
 		ys := m.yieldParked()
@@ -485,6 +496,31 @@ func iSleep(m *machine, fr *frame, args []value) value {
 		m.sched.idle++
 		if m.sched.idle > 3 {
 			panic(unwindOverflow{"the scheduler loop spins with no task in flight"})
+		}
+		return nil
+	}
+	// goroutines exist but none can run: every one is blocked on a mutex or a
+	// channel nobody will serve, and none is about to hand a completion over
+	stuck := true
+	for _, g := range m.sched.gs {
+		if g == m.sched.main || g.done {
+			continue
+		}
+		switch g.park {
+		case "mutex", "recv", "select":
+		case "send":
+			if g.yielded || g.waitCh == nil || g.waitCh.capacity == 0 {
+				stuck = false // a sender the scheduler loop will receive from
+			}
+		default:
+			stuck = false
+		}
+	}
+	if stuck {
+		m.drain()
+		m.sched.idle++
+		if m.sched.idle > 6 {
+			panic(unwindOverflow{"every goroutine is blocked for ever (deadlock) while the scheduler loop spins"})
 		}
 	}
 	return nil
